@@ -728,7 +728,10 @@ def run(ctx):
         'back, zero/negative amounts, cancels of idle tokens); (2) 1-8 real BandwidthLimitedStreams blocked in their '
         'real read()/close() loops, transfers failed at random points, enable/disable, a probe stream reading twice at '
         'the last clock reading. Each history is replayed by the extracted Coq model and compared answer by answer; '
-        'the monitors of the proved clauses run on every history. A history is distinct/non-trivial by its full model '
+        'the monitors of the proved clauses run on every history. (3) 2-4 managed threads on one real bucket under the '
+        'cooperative scheduler (lock acquisition is a yield point, virtual clock advanced by the programs): every '
+        'schedule of 5 small program sets up to a budget, random/PCT schedules of random programs; clock readings '
+        'reaching the tracker must be in lock order, monitors in lock order, lock-order linearisation replayed by the model. A history is distinct/non-trivial by its full model '
         'command line and counts only if it contains at least one refusal.')
     bw = impl()
     near_ties = 0
@@ -788,6 +791,9 @@ def run(ctx):
             ctx.sample({'component': 'bandwidth-' + c['kind'], 'case': c, 'model_cmd': line[:600],
                         'model_answers': m[:300]}, limit=2)
         ctx.cov['near_tie_steps_agreeing'] = near_ties
+        # concurrent tie: managed threads on one real bucket, lock acquisition is a yield point
+        from harness.props import c13conc
+        c13conc.run(ctx)
         ctx.cov.setdefault('near_tie_histories_cut', 0)
         try:        # for the record only; the proof is tied to the source through gen/Tables.v
             ctx.cov['source_alpha'] = str(Fraction(bw.BandwidthRateTracker()._alpha).limit_denominator(10 ** 6))
@@ -801,8 +807,15 @@ def search_after_break(ctx):
     """A proof obligation, the translator or the build broke: look for a
     history on which the implementation violates a proved clause."""
     found = False
+    from harness.props import c13conc
+    n0 = len(ctx.violations)
     try:
-        for c in gen_cases(ctx, 0.5):
+        c13conc.run(ctx, use_model=False)
+    except common.BuildBroken:
+        pass
+    found = len(ctx.violations) > n0
+    try:
+        for c in ([] if found else gen_cases(ctx, 0.5)):
             try:
                 _, _, mon = run_case(c)
             except HarnessStall:
@@ -831,6 +844,9 @@ def replay(ctx, data):
         r = oracle_case(case)
         print('oracle:', r)
         return r is not None
+    if isinstance(case, dict) and case.get('kind') == 'sched':
+        from harness.props import c13conc
+        return c13conc.replay_case(case, use_model=data.get('kind') == 'correspondence')
     if isinstance(case, dict) and case.get('witness') in ('F10', 'F11'):
         class C:
             hits = []
